@@ -136,6 +136,50 @@ def d7(ctx, rep):
                 rep.ok('D7.calib', fn, fn.node.name, f'no tau cell of {len(cuts) - 1} in (0.001, 0.999) refutes tau(theta(tau)) = tau; theta admissible on {proved_dom} path results',
                        construct=f'{cls.name}.compute_theta: inverts {formula}')
     rep.floor('D7.calib', 'closed-form calibrations', n, 2)
+    # negative tau: Clayton and Gumbel cannot model it; compute_theta must raise or return an inadmissible theta, so that
+    # check_theta (which post-dominates the store, D3) refuses - a value silently mapped into the admissible set is accepted
+    neg = [(-0.999 + 0.998 * i / 20, -0.999 + 0.998 * (i + 1) / 20) for i in range(20)]
+    for q, (tau_of, formula, lo_adm, hi_adm) in CALIB.items():
+        cls = prog.cls(q)
+        fn = cls.lookup('compute_theta')
+        inv = cls.lookup_attr('invalid_thetas')
+        invalid = [const_value(e) for e in inv[1].elts] if inv is not None and isinstance(inv[1], (ast.List, ast.Tuple)) else []
+        accepted = und = 0
+        witness = None
+        for a, b in neg:
+            alts, _ = evaluate_attrs(ctx, cls, 'compute_theta', {'tau': IV(a, b)})
+            for th, definite in alts:
+                if not isinstance(th, IV) or th.nan:
+                    und += 1
+                    continue
+                inside = th.lo >= lo_adm and th.hi <= hi_adm and not any(isinstance(v_, (int, float)) and th.lo <= v_ <= th.hi for v_ in invalid) \
+                    and not (lo_adm == 0.0 and th.lo <= 0.0 <= th.hi and q.endswith('Clayton') and False)
+                if inside and definite:
+                    accepted += 1
+                    witness = witness or (IV(a, b), th)
+        cons = f'{cls.name}.compute_theta: negative tau refused'
+        if accepted:
+            rep.bad('D7.calib', fn, fn.node.name, f'for tau in {witness[0]} compute_theta returns theta in {witness[1]}, inside the admissible set: fit accepts '
+                    f'negatively dependent data that no {cls.name} copula can model instead of raising ValueError', construct=cons)
+        elif und:
+            rep.undecided('D7.calib', fn, fn.node.name, 'the value returned for negative tau is not derived', construct=cons)
+        else:
+            rep.ok('D7.calib', fn, fn.node.name, 'for every negative tau cell the returned theta lies outside the admissible set (or the method raises): check_theta refuses',
+                   construct=cons)
+    # a constant returned by any compute_theta must itself be admissible (check_theta would reject it for every input of that path)
+    for famq in list(CALIB) + ['copulas.bivariate.frank.Frank']:
+        cls = prog.cls(famq)
+        fn = cls.lookup('compute_theta')
+        if fn is None:
+            continue
+        ti = cls.lookup_attr('theta_interval')
+        inv = cls.lookup_attr('invalid_thetas')
+        invalid = [const_value(e) for e in inv[1].elts] if inv is not None and isinstance(inv[1], (ast.List, ast.Tuple)) else []
+        for r in [x for x in walk_no_nested(fn.node) if isinstance(x, ast.Return) and x.value is not None]:
+            c = const_value(r.value)
+            if isinstance(c, (int, float)) and not isinstance(c, bool) and c in invalid:
+                rep.bad('D7.calib', fn, r, f'{cls.name}.compute_theta returns the constant {c}, which is in invalid_thetas: every fit that takes this path '
+                        'ends in ValueError (for Frank this includes select_copula on data with tau == 0)', construct=f'{cls.name}.compute_theta: constant {c}')
 
 
 def d1(ctx, rep):
